@@ -177,4 +177,18 @@ theorem C14_config_decoding_strict :
     Sso.Generated.skel_proxy_parseEnvironment =
       ["call:make", "call:len", "if{", "return", "}", "range{", "call:HasPrefix", "if{", "continue", "}", "call:SplitN", "call:TrimPrefix", "call:ToLower", "store:env[]", "}", "return"] := by decide
 
+/-- Tie (T1), second wave: helpers, stores and second callers on this property's path (cfg_resolveTemplates, cfg_rewriteRoute, cfg_simpleRoute, cfg_urlParse, cfg_cleanWhiteSpace) — call/branch/store skeletons
+regenerated from the source on every run against the expectations frozen here. -/
+theorem C14_wiring2 :
+    Sso.Generated.skel_cfg_resolveTemplates =
+      ["call:string", "range{", "call:Sprintf", "call:Replace", "}", "call:?", "return"] ∧
+    Sso.Generated.skel_cfg_rewriteRoute =
+      ["call:Compile", "if{", "return", "}", "return"] ∧
+    Sso.Generated.skel_cfg_simpleRoute =
+      ["call:urlParse", "if{", "return", "}", "call:urlParse", "if{", "return", "}", "return"] ∧
+    Sso.Generated.skel_cfg_urlParse =
+      ["call:Contains", "if{", "call:Sprintf", "}", "call:Parse", "return"] ∧
+    Sso.Generated.skel_cfg_cleanWhiteSpace =
+      ["call:TrimSpace", "call:ReplaceAllString", "return"] := by decide
+
 end Sso.Config
